@@ -337,42 +337,102 @@ def gen_iface(rng, exclude=(), falsy=False):
     return {"doc": rng.choice(HEAD_DOCS), "params": params}
 
 
-def render_class(name, iface, rng):
-    lines = ["class %s(object):" % name, '    """', "    %s" % iface["doc"], ""]
-    for n, p in iface["params"].items():
-        lines.append("    :cvar %s: %s" % (n, p["doc"]))
-    lines.append('    """')
+def render_class(name, iface, rng, shape=None):
+    doc = (shape or {}).get("doc", "full")
+    lines = ["class %s(object):" % name]
+    if doc == "one":
+        lines.append('    """%s"""' % iface["doc"])  # a summary, attributes but no `:cvar`s
+    elif doc == "full":
+        lines += ['    """', "    %s" % iface["doc"], ""]
+        for n, p in iface["params"].items():
+            lines.append("    :cvar %s: %s" % (n, p["doc"]))
+        lines.append('    """')
     lines.append("")
     for n, p in iface["params"].items():
         lines.append("    %s: %s = %r" % (n, p["typ"], p["default"]))
     return "\n".join(lines) + "\n"
 
 
-def render_function(name, iface, rng, first=None):
+def render_function(name, iface, rng, first=None, shape=None):
     ret = rng.choice(["    return None", "    return None", None, "    pass"])
-    sig = ([first] if first else []) + ["%s: %s = %r" % (n, p["typ"], p["default"]) for n, p in iface["params"].items()]
-    lines = ["def %s(%s):" % (name, ", ".join(sig)), '    """', "    %s" % iface["doc"], ""]
-    for n, p in iface["params"].items():
-        lines.append("    :param %s: %s" % (n, p["doc"]))
-        if rng.random() < 0.5:
-            lines.append("    :type %s: ```%s```" % (n, p["typ"]))
-        lines.append("")
-    lines.append('    """')
-    if ret:
-        lines.append(ret)
+    sh = shape or {}
+    doc, ann = sh.get("doc", "full"), sh.get("ann", True)
+    pn = list(iface["params"])
+    if "ret" in sh:
+        ret = {None: None, "pass": "    pass", "None": "    return None", "param": "    return %s" % pn[0], "tuple": "    return %s, %s" % (pn[0], pn[-1]),
+               "ann-literal": "    return 5"}[sh["ret"]]
+    sig = ([first] if first else []) + [("%s: %s = %r" % (n, p["typ"], p["default"])) if ann else "%s=%r" % (n, p["default"]) for n, p in iface["params"].items()]
+    lines = ["def %s(%s)%s:" % (name, ", ".join(sig), " -> int" if sh.get("ret") == "ann-literal" else "")]
+    if doc == "one":
+        lines.append('    """%s"""' % iface["doc"])
+    elif doc == "full":
+        lines += ['    """', "    %s" % iface["doc"], ""]
+        for n, p in iface["params"].items():
+            lines.append("    :param %s: %s" % (n, p["doc"]))
+            if rng.random() < 0.5:
+                lines.append("    :type %s: ```%s```" % (n, p["typ"]))
+            lines.append("")
+        lines.append('    """')
+    if ret or doc == "none":
+        lines.append(ret or "    pass")
     return "\n".join(lines) + "\n"
 
 
-def render_argparse(name, iface, rng):
-    lines = ["def %s(argument_parser):" % name, '    """', "    Set CLI arguments", "", "    :param argument_parser: argument parser",
-             "    :type argument_parser: ```ArgumentParser```", "", "    :return: argument_parser", "    :rtype: ```ArgumentParser```", '    """',
-             "    argument_parser.description = %r" % iface["doc"]]
+def render_argparse(name, iface, rng, shape=None):
+    sh = shape or {}
+    doc, desc = sh.get("doc", "full"), sh.get("desc", "before")
+    lines = ["def %s(argument_parser):" % name]
+    if doc == "one":
+        lines.append('    """Set CLI arguments"""')
+    elif doc == "full":
+        lines += ['    """', "    Set CLI arguments", "", "    :param argument_parser: argument parser",
+                  "    :type argument_parser: ```ArgumentParser```", "", "    :return: argument_parser", "    :rtype: ```ArgumentParser```", '    """']
+    if desc == "before":
+        lines.append("    argument_parser.description = %r" % iface["doc"])
     for n, p in iface["params"].items():
         base = p["typ"][9:-1] if p["typ"].startswith("Optional[") else p["typ"]
         t = "" if base == "str" else "type=%s, " % base
         lines.append("    argument_parser.add_argument('--%s', %shelp=%r, required=True, default=%r)" % (n, t, p["doc"], p["default"]))
+    if desc == "after":
+        lines.append("    argument_parser.description = %r" % iface["doc"])
     lines.append("    return argument_parser")
     return "\n".join(lines) + "\n"
+
+
+def gen_shape(rng, kind):
+    """the shapes people write a truth in (the hand-written default shape is the fully documented one)"""
+    doc = rng.choice(["full", "one", "one", "none", "none"])
+    if kind == "class":
+        return {"doc": doc}
+    if kind == "argparse_function":
+        return {"doc": doc, "desc": rng.choice(["before", "after", "absent", "absent"])}
+    if rng.random() < 0.85 and doc == "none":
+        doc = "one"  # (a function truth without docstring aborts sync on the unchanged tree: finding; kept rare)
+    ret = rng.choice([None, "pass", "None", "param", "tuple"])
+    if rng.random() < 0.04:
+        ret = "ann-literal"
+    return {"doc": doc, "ann": rng.random() < 0.6, "ret": ret}
+
+
+def truth_shape(kind, text, path):
+    """root-cause markers for signatures: how the truth is written (read with the stdlib only)"""
+    node = written_node(text, path) if text else None
+    if node is None:
+        return {}
+    d = ast.get_docstring(node, clean=False)
+    out = {"truth_doc": "none" if d is None else ("one" if "\n" not in d.strip() else "multi")}
+    body = node.body[1:] if d is not None else node.body
+    if kind == "argparse_function":
+        idx = [i for i, st in enumerate(body) if isinstance(st, ast.Assign) and ast.unparse(st.targets[0]).endswith(".description")]
+        adds = [i for i, st in enumerate(body) if isinstance(st, ast.Expr) and isinstance(st.value, ast.Call) and getattr(st.value.func, "attr", "") == "add_argument"]
+        out["truth_desc"] = "absent" if not idx else ("before" if not adds or idx[0] < adds[0] else "after")
+    if kind == "function" and isinstance(node, (ast.FunctionDef, ast.AsyncFunctionDef)):
+        rets = [st for st in ast.walk(node) if isinstance(st, ast.Return)]
+        v = rets[-1].value if rets else None
+        out["truth_ret"] = ("none" if not rets else "None" if v is None or (isinstance(v, ast.Constant) and v.value is None) else
+                            "name" if isinstance(v, ast.Name) else "tuple" if isinstance(v, ast.Tuple) else "literal" if isinstance(v, ast.Constant) else "other")
+        out["truth_retann"] = node.returns is not None
+    return out
 
 
 def indent(src, by="    "):
@@ -385,7 +445,7 @@ def surround(rng, target_src, pool, lo=0, hi=3):
     return before, after
 
 
-def build_file(rng, kind, name, iface, state):
+def build_file(rng, kind, name, iface, state, shape=None):
     """source text of one target file (None = the file does not exist)"""
     if state == "missing":
         return None
@@ -407,14 +467,14 @@ def build_file(rng, kind, name, iface, state):
         text = "\n".join(parts + body)
         return text.rstrip("\n") if rng.random() < 0.1 else text
     if kind == "class":
-        tgt = render_class(path[-1], iface, rng)
+        tgt = render_class(path[-1], iface, rng, shape)
     elif kind == "argparse_function":
-        tgt = render_argparse(path[-1], iface, rng)
+        tgt = render_argparse(path[-1], iface, rng, shape)
     else:
         first = None
         if len(path) > 1:
             first = rng.choice(["self", "self", "self", "cls", None])
-        tgt = render_function(path[-1], iface, rng, first)
+        tgt = render_function(path[-1], iface, rng, first, shape)
         if first is None and len(path) > 1:
             tgt = "@staticmethod\n" + tgt
     if kind == "class" and len(path) == 1 and rng.random() < 0.3:
@@ -440,7 +500,8 @@ def build_case(rng, k):
         ifaces[kind] = gen_iface(rng, exclude=used if rng.random() < 0.8 else (), falsy=rng.random() < 0.5)
         used += list(ifaces[kind]["params"])
         states[kind] = "present" if kind == truth else rng.choice(["present", "present", "present", "present", "empty", "missing", "absent"])
-    files = {kind: build_file(rng, kind, names[kind], ifaces[kind], states[kind]) for kind in KINDS}
+    shapes = {kind: (gen_shape(rng, kind) if kind == truth and rng.random() < 0.6 else None) for kind in KINDS}
+    files = {kind: build_file(rng, kind, names[kind], ifaces[kind], states[kind], shapes[kind]) for kind in KINDS}
     return {"id": k, "truth": truth, "names": names, "states": states, "files": files, "runs": rng.choice([1, 2, 2, 3])}
 
 
@@ -472,7 +533,7 @@ def build_shared_case(rng, k):
             present = fstate == "has" and (kind == truth or rng.random() < 0.6)
             states[kind] = "present" if present else {"has": "absent", "empty": "empty", "missing": "missing"}[fstate]
             if present:
-                blocks.append(RENDER[kind](names[kind], iface, rng))
+                blocks.append(RENDER[kind](names[kind], iface, rng, shape=gen_shape(rng, kind) if kind == truth and rng.random() < 0.5 else None))
         if fstate == "missing":
             text = None
         elif fstate == "empty":
@@ -532,6 +593,37 @@ def layout_and_default_cases():
              {"class": "empty", "function": "absent", "argparse_function": "present"}),
         case("falsy-function-truth", "function", L("cls.py", "meth.py", "argp.py"), {"cls.py": pre, "meth.py": fn_f, "argp.py": ""},
              {"class": "absent", "function": "present", "argparse_function": "empty"}),
+    ]
+
+
+def truth_shape_cases():
+    """fixed corner cases on every seed: truths in the shapes people write them"""
+    rng = __import__("random").Random(7)
+    P = lambda **kw: OrderedDict((n, {"typ": t_, "doc": "the %s" % n, "default": d}) for n, (t_, d) in kw.items())  # noqa: E731
+    ifc = {"doc": "The desc", "params": P(alpha=("int", 5), beta=("str", "foo"), rate=("float", 0.5), count=("int", 0))}
+    names = {"class": "K", "function": "run_it", "argparse_function": "set_cli_args"}
+    stale = render_class("K", {"doc": "Old", "params": P(old_attr=("int", 1))}, rng)
+    pre = "import os\n\n"
+
+    def case(id_, truth, src, runs=2):
+        files = {"class": pre + stale, "function": "", "argparse_function": ""}
+        states = {"class": "present", "function": "empty", "argparse_function": "empty"}
+        files[truth], states[truth] = src, "present"
+        return {"id": id_, "truth": truth, "names": names, "states": states, "files": files, "runs": runs}
+
+    return [
+        # `add_argument` is the very first statement: no docstring, description later / absent
+        case("shape-argparse-nodoc-add-argument-first", "argparse_function", render_argparse("set_cli_args", ifc, rng, {"doc": "none", "desc": "absent"})),
+        case("shape-argparse-nodoc-description-after", "argparse_function", render_argparse("set_cli_args", ifc, rng, {"doc": "none", "desc": "after"})),
+        case("shape-argparse-oneline-description-before", "argparse_function", render_argparse("set_cli_args", ifc, rng, {"doc": "one", "desc": "before"})),
+        case("shape-class-nodoc", "class", render_class("K", ifc, rng, {"doc": "none"})),
+        case("shape-class-summary-only", "class", render_class("K", ifc, rng, {"doc": "one"})),
+        case("shape-function-oneline-no-annotations-return-param", "function", render_function("run_it", ifc, rng, None, {"doc": "one", "ann": False, "ret": "param"})),
+        case("shape-function-oneline-return-tuple", "function", render_function("run_it", ifc, rng, None, {"doc": "one", "ann": True, "ret": "tuple"})),
+        # shapes on which the unchanged tree aborts (findings C12-truth-*)
+        case("shape-function-nodoc", "function", render_function("run_it", ifc, rng, None, {"doc": "none", "ann": True, "ret": "pass"}), runs=1),
+        case("shape-function-return-annotation-literal", "function", render_function("run_it", ifc, rng, None, {"doc": "one", "ann": True, "ret": "ann-literal"}), runs=1),
+        case("shape-argparse-oneline-no-description", "argparse_function", render_argparse("set_cli_args", ifc, rng, {"doc": "one", "desc": "absent"}), runs=1),
     ]
 
 
@@ -924,6 +1016,46 @@ def stdlib_defaults(kind, node):
     return out
 
 
+def stdlib_iface(kind, node):
+    """An interface read with the stdlib `ast` only — names in order, type, typed default — independent of cdd's parsers:
+    class attributes, the signature (without self/cls), the `add_argument` calls in statement order."""
+    out = []
+    if node is None:
+        return out
+
+    def ent(name, ann, dflt):
+        d = None if dflt is None else _lit(dflt)
+        t = None if ann is None else ast.unparse(ann)
+        if t is None and d is not None and d.split(":")[0] in ("int", "float", "str", "bool"):
+            t = d.split(":")[0]  # no annotation: the type of the literal default
+        out.append((name, t, d))
+
+    if kind == "class":
+        for st in node.body:
+            if isinstance(st, ast.AnnAssign) and isinstance(st.target, ast.Name):
+                ent(st.target.id, st.annotation, st.value)
+            elif isinstance(st, ast.Assign) and len(st.targets) == 1 and isinstance(st.targets[0], ast.Name):
+                ent(st.targets[0].id, None, st.value)
+    elif kind == "function":
+        a = node.args
+        pos = a.posonlyargs + a.args
+        dflts = [None] * (len(pos) - len(a.defaults)) + list(a.defaults)
+        for i, (arg, d) in enumerate(zip(pos, dflts)):
+            if i == 0 and arg.arg in ("self", "cls"):
+                continue
+            ent(arg.arg, arg.annotation, d)
+        for arg, d in zip(a.kwonlyargs, a.kw_defaults):
+            ent(arg.arg, arg.annotation, d)
+    else:
+        for st in node.body:
+            call = st.value if isinstance(st, ast.Expr) else None
+            if isinstance(call, ast.Call) and isinstance(call.func, ast.Attribute) and call.func.attr == "add_argument" and call.args \
+                    and isinstance(call.args[0], ast.Constant) and isinstance(call.args[0].value, str):
+                kw = {k.arg: k.value for k in call.keywords}
+                ent(call.args[0].value.lstrip("-"), kw.get("type"), kw.get("default"))
+    return out
+
+
 def written_node(text, path):
     """the definition sync wrote for a target: the named target, or (method targets) the stray top-level `def` it appended"""
     try:
@@ -1090,6 +1222,10 @@ def oracle_phase(chk, case, before, states, snaps):
     truth_view, why = parse_target(t, before[t], case["names"][t])
     base = {"truth": t}
     case = dict(case, files=before, states=states)
+    tpath = [c.strip() for c in case["names"][t].split(".")]
+    tshape = truth_shape(t, before[t], tpath)
+    # the truth's interface read with the stdlib only: a defect of the truth's cdd parser must not cancel out on both sides
+    t_iface = stdlib_iface(t, written_node(before[t], tpath)) if before[t] else []
 
     def fail(sig, what):
         s = dict(base)
@@ -1101,6 +1237,7 @@ def oracle_phase(chk, case, before, states, snaps):
         missing_fn = before["function"] is None and sharing(case, "function")[0] == "function"
         coll = collisions(case, before, effective=True)
         fail({"clause": "crash", "exc": first["exc"], "function_file_missing": missing_fn, "truth_method_after_toplevel_def": truth_quirk(case),
+              **tshape,
               "const_collision": coll[0] if coll else False,
               "states": "/".join(case["states"][k] for k in KINDS) if not (missing_fn or truth_quirk(case) or coll) else "*"},
              "sync exits %s: %s" % (first["rc"], first["stderr"].strip().splitlines()[-1] if first["stderr"].strip() else ""))
@@ -1149,17 +1286,27 @@ def oracle_phase(chk, case, before, states, snaps):
                 fail(dict(sig0, clause="interface", diff="returns-differ"), "%s target %s return entry %s, truth %s" % (kind, name, v["returns"], truth_view["returns"]))
             elif not comparable:
                 chk.coverage["outside_common_domain"] = chk.coverage.get("outside_common_domain", 0) + 1
-        # (b') defaults of a WRITTEN target as typed values, read with the stdlib only (not through cdd's own parsers, and not
-        #      relative to a control conversion: an emitter that drops `= 0` must not vanish in the comparison)
-        if outcome in ("created", "appended", "rewritten", "method-appended-at-top-level") and before[t] is not None:
-            td = stdlib_defaults(t, written_node(before[t], [c.strip() for c in case["names"][t].split(".")]))
-            wd = stdlib_defaults(kind, written_node(after, path))
-            for pn, tv in td.items():
-                wv = wd.get(pn, "missing")
-                if wv != tv:
-                    fail(dict(sig0, clause="defaults", default_from=tv.split(":")[0], default_to=wv.split(":")[0]),
-                         "%s target %s was written with %s = %s, the truth (%s) has %s" % (kind, name, pn, wv, t, tv))
-                    break
+        # (b') a WRITTEN target against the truth's interface as the stdlib reads both (names in order, types, typed defaults) — not
+        #      through cdd's own parsers and not relative to a control conversion: a parser that drops a parameter of the truth, or
+        #      an emitter that drops `= 0`, must not vanish in the comparison.  (`return_type` is the class form of a return entry.)
+        if outcome in ("created", "appended", "rewritten", "method-appended-at-top-level") and t_iface:
+            wi = [e for e in stdlib_iface(kind, written_node(after, path)) if not (kind == "class" and e[0] == "return_type")]
+            if [e[0] for e in wi] != [e[0] for e in t_iface]:
+                fail(dict(sig0, clause="stdlib-interface", field="names", **tshape),
+                     "%s target %s was written with parameters %s, the truth (%s) declares %s" % (kind, name, [e[0] for e in wi], t, [e[0] for e in t_iface]))
+            else:
+                for (pn, tt, tv), (_, wt, wv) in zip(t_iface, wi):
+                    if tv is not None and wv != tv:
+                        fail(dict(sig0, clause="defaults", default_from=tv.split(":")[0], default_to=(wv or "missing").split(":")[0]),
+                             "%s target %s was written with %s = %s, the truth (%s) has %s" % (kind, name, pn, wv or "missing", t, tv))
+                        break
+                    if "argparse_function" in (kind, t):
+                        # `add_argument(type=…)` cannot say Optional: compare the base types
+                        tt, wt = (x[9:-1] if x and x.startswith("Optional[") and x.endswith("]") else x for x in (tt, wt))
+                    if tt is not None and wt != tt:
+                        fail(dict(sig0, clause="stdlib-interface", field="type", type_from=tt, type_to=wt or "missing", **tshape),
+                             "%s target %s was written with %s: %s, the truth (%s) declares %s" % (kind, name, pn, wt, t, tt))
+                        break
         # (c) frame: everything but the named target(s) of this file is the same code
         if before[kind] is not None and after is not None:
             try:
@@ -1201,7 +1348,7 @@ def oracle_phase(chk, case, before, states, snaps):
         for i in range(1, len(snaps)):
             if snaps[i]["rc"] != 0:
                 coll = collisions(case, before, effective=True) or collisions(case, snaps[i]["before"], effective=True)
-                fail({"clause": "crash", "exc": snaps[i]["exc"], "run": i + 1, "const_collision": coll[0] if coll else False,
+                fail({"clause": "crash", "exc": snaps[i]["exc"], "run": i + 1, "const_collision": coll[0] if coll else False, **tshape,
                       "states": "/".join(states[k] for k in KINDS) if not coll else "*"},
                      "run %d exits %s: %s" % (i + 1, snaps[i]["rc"], snaps[i]["stderr"].strip().splitlines()[-1] if snaps[i]["stderr"].strip() else ""))
                 break
@@ -1273,6 +1420,16 @@ def check_sync_cases(chk, cases, label):
                     continue
                 texts0 = snap["before"]
                 collide = collisions(c, texts0)
+                if any(str(e_["node"].get("src", "")).startswith("<emitter raised") for e_ in ems[i]):
+                    # the black-box emitter itself raised on this interface (not modelled): the real run must abort, too
+                    alive[i] = False
+                    chk.coverage["sync_emitter_raised"] = chk.coverage.get("sync_emitter_raised", 0) + 1
+                    if snap["rc"] == 0:
+                        n_dis += 1
+                        chk.disagreement("C12 correspondence: Sync.sync vs `python -m cdd sync` (%s)" % label,
+                                         {"case": {k: c.get(k) for k in ("truth", "names", "states", "files", "runs", "edits", "layout")}, "run": run + 1,
+                                          "why": "a real emitter raised in the harness, the real run did not abort"}, {"rc": snap["rc"]}, {})
+                    continue
                 if any(isinstance(v, dict) for v in realj.values()) or \
                         any(classify_outcome(texts0[k], snap["files"][k], []) == "glued-append" for k in KINDS):
                     # a real file is not valid Python / text was glued onto a last line without newline: a text-level effect of
@@ -1405,7 +1562,7 @@ def run(chk: core.Check) -> int:
     chk.coverage["rewrite_outcomes"] = kinds_r
     # ---- (2) the real CLI on triples of files ---------------------------------------------------------------
     cases = [build_case(rng, k) for k in range(160 if chk.quick else 1600)]
-    cases = witness_cases() + fixed_cases() + layout_and_default_cases() + cases + [build_shared_case(rng, k) for k in range(50 if chk.quick else 500)] + [build_history_case(rng, k) for k in range(40 if chk.quick else 400)]
+    cases = witness_cases() + fixed_cases() + layout_and_default_cases() + truth_shape_cases() + cases + [build_shared_case(rng, k) for k in range(50 if chk.quick else 500)] + [build_history_case(rng, k) for k in range(40 if chk.quick else 400)]
     n_s, real = check_sync_cases(chk, cases, "structured") if have_driver else (0, [run_real(c) for c in cases])
     chk.oblige("correspondence Sync.sync = `python -m cdd sync` (files after every run) on %d triples, %d CLI runs" % (len(cases), sum(c["runs"] for c in cases)),
                "correspondence", have_driver and n_s == 0, "%d disagreements" % n_s)
